@@ -6,7 +6,7 @@ export CARGO_NET_OFFLINE=true
 mkdir -p work evidence
 for t in translators/tr_*.py; do python3 "$t" || echo "setup: $t reported a broken anchor"; done
 cd coq
-coq_makefile -f _CoqProject -o Makefile
+./mkproject.sh
 timeout 3000 make -j16 || echo "setup: coq build incomplete"
 cd ../ocaml && ./build.sh || echo "setup: ocaml driver build failed"
 cd ../harness
